@@ -71,5 +71,40 @@ PROPS["C14"] = dict(
     ],
 )
 
+PROPS["C15"] = dict(
+    title="HTML escaping neutralises all markup; URL and base64 codecs are exact inverses",
+    level="model_checking",
+    trusted_base=COMMON_TB + ["std::locale constructor/destructor are no-ops (streambuf base class)", "sscanf(\"%x\") model: hex parse of <=8 digits"],
+    assumptions=["input lengths enumerated per solver instance up to the stated N, contents symbolic"],
+    outside="template filters (filters.cpp) and form widget rendering route through the same functions but are not encoded; ostream overloads (failbit path) only via the streambuf overload they call",
+    obligations=[
+        dict(id="C15.a", harness="C15_codecs.cpp", entry="h_c15a_escape_streambuf", ctors=False,
+             desc="util::escape(b,e,streambuf&): no raw < > \" ' or bare &, reference un-escape == input; failing sink => -1",
+             tiers=T(quick=dict(split=[[0, 1, 2]], unwind="6*p0+3", timeout=600, bounds="every input of length 0..2, sink failing after any number of bytes"),
+                     thorough=dict(split=[[0, 1, 2, 3, 4]], unwind="6*p0+3", timeout=3000, bounds="every input of length 0..4"))),
+        dict(id="C15.a2", harness="C15_codecs.cpp", entry="h_c15a_escape_string", ctors=False, cut=[STRING_REALLOC],
+             desc="util::escape(std::string) produces the same bytes as the streambuf overload",
+             tiers=T(quick=dict(split=[[0, 1, 2]], unwind=20, timeout=600, bounds="every input of length 0..2 (result fits the initial string capacity, checked)"))),
+        dict(id="C15.b", harness="C15_codecs.cpp", entry="h_c15b_urlencode", ctors=False, cut=[STRING_REALLOC],
+             desc="util::urlencode(b,e,streambuf&): alphabet unreserved + %xx, decodes to the input; util::urldecode inverts it",
+             tiers=T(quick=dict(split=[[0, 1, 2, 3, 4]], unwind=20, timeout=600, bounds="every input of length 0..4"),
+                     thorough=dict(split=[[0, 1, 2, 3, 4, 5]], unwind=24, timeout=1800, bounds="every input of length 0..5"))),
+        dict(id="C15.b2", harness="C15_codecs.cpp", entry="h_c15b_urldecode_safety", ctors=False, cut=[STRING_REALLOC],
+             desc="util::urldecode on arbitrary bytes stays inside [begin,end) and yields <= n bytes",
+             tiers=T(quick=dict(split=[[0, 1, 2, 3, 4, 5, 6]], unwind=12, timeout=600, bounds="every byte string of length 0..6 (exact-size heap block)"),
+                     thorough=dict(split=[list(range(0, 10))], unwind=14, timeout=1800, bounds="every byte string of length 0..9"))),
+        dict(id="C15.c", harness="C15_codecs.cpp", entry="h_c15c_sizes", ctors=False,
+             desc="b64url::encoded_size == ceil(4s/3), decoded_size inverse, -1 exactly for s%4==1",
+             tiers=T(quick=dict(unwind=2, timeout=600, bounds="every size s < 2^30"))),
+        dict(id="C15.d", harness="C15_codecs.cpp", entry="h_c15d_b64_roundtrip", ctors=False,
+             desc="b64url::encode/decode (pointer forms), exact-size buffers: RFC 4648 base64url value, exactly encoded_size/decoded_size bytes written, decode(encode(x)) == x",
+             tiers=T(quick=dict(split=[list(range(0, 8))], unwind=16, timeout=600, bounds="every input of length 0..7"),
+                     thorough=dict(split=[list(range(0, 13))], unwind=24, timeout=1800, bounds="every input of length 0..12"))),
+        dict(id="C15.d2", harness="C15_codecs.cpp", entry="h_c15d_b64_decode_safety", ctors=False,
+             desc="b64url::decode on arbitrary bytes of acceptable length stays inside both exact-size buffers; string overload rejects length = 1 mod 4",
+             tiers=T(quick=dict(split=[list(range(0, 10))], unwind=16, timeout=600, bounds="every byte string of length 0..9"))),
+    ],
+)
+
 # properties for which no obligation can be built with this technique (reason required)
 NOT_APPLICABLE = {}
